@@ -628,12 +628,15 @@ void phpy_set_index_permutation_symmetry_compact_fc(
         j_p = s2pp[j];
         for (i_p = 0; i_p < n_patom; i_p++) {
             i = p2s[i_p];
-            if (i == j) { /* diagnoal part */
+            i_trans = perms[nsym_list[j] * n_satom + i];
+            /* Block (i_p, j) is paired with itself: the diagonal part */
+            /* (i == j) and translations that are their own inverse. */
+            if (i_p == j_p && i_trans == j) {
                 for (k = 0; k < 3; k++) {
                     for (l = 0; l < 3; l++) {
                         if (l > k) {
-                            m = i_p * n_satom * 9 + i * 9 + k * 3 + l;
-                            n = i_p * n_satom * 9 + i * 9 + l * 3 + k;
+                            m = i_p * n_satom * 9 + j * 9 + k * 3 + l;
+                            n = i_p * n_satom * 9 + j * 9 + l * 3 + k;
                             if (is_transpose) {
                                 fc_elem = fc[m];
                                 fc[m] = fc[n];
